@@ -1593,6 +1593,10 @@ class t2data(object):
                     self._sections.append(keyword)
             else: more = False
         infile.close()
+        if self.extra_precision:
+            # extra precision sections that are also in the main file were echoed:
+            self._echo_extra_precision = any([section in self._sections for
+                                              section in self.extra_precision])
         if meshfilename and (self.grid.num_blocks == 0):
             self.meshfilename = meshfilename
             if isinstance(meshfilename, str):
